@@ -317,7 +317,8 @@ def run_check(prop: str, tier: str, seed: int, fn):
         ctx.note("harness exception: " + traceback.format_exc()[-2000:])
         ctx.write_evidence(status="machinery_failure")
         return 2
-    ctx.write_evidence()
+    if not prop.startswith("X"):              # extra checks (specification coverage beyond the listed properties) keep their own file
+        ctx.write_evidence()
     wall = time.time() - ctx.t0
     print(f"[{prop}] tier={tier} seed={seed} states={ctx.states} transitions={ctx.transitions} "
           f"traces={ctx.traces} evaluations={ctx.evaluations} nontrivial={len(ctx.nontrivial)} "
